@@ -594,6 +594,30 @@ func (c *Ctx) predicateRefuses(cond ssa.Value, caller *ssa.Function, pred func(s
 			}
 			st = append(st, x.Succs...)
 		}
+		// the test written the other way round (`if len < limit { return false }`):
+		// exactly one outcome of the limit test can make the predicate true
+		mayTrue := func(from *ssa.BasicBlock) bool {
+			seen := map[*ssa.BasicBlock]bool{}
+			st := []*ssa.BasicBlock{from}
+			for len(st) > 0 {
+				x := st[len(st)-1]
+				st = st[:len(st)-1]
+				if seen[x] {
+					continue
+				}
+				seen[x] = true
+				if r, ok := x.Instrs[len(x.Instrs)-1].(*ssa.Return); ok && len(r.Results) == 1 {
+					if k, isK := constBool(retVals(r)[0]); !isK || k {
+						return true
+					}
+				}
+				st = append(st, x.Succs...)
+			}
+			return false
+		}
+		if len(b.Succs) == 2 && mayTrue(b.Succs[0]) != mayTrue(b.Succs[1]) {
+			return true
+		}
 	}
 	return false
 }
